@@ -16,6 +16,7 @@ EXPLANATION = [
     'C08.window: I-frames are sent only from _process_output, inside an islice '
     'bounded by peer_tx_window_size - len(_tx_window); the window grows only '
     'there and an acknowledgement removes exactly num_frames_acked (<= len) entries.',
+    'C08.ack: every accepted in-sequence I-frame leads to an acknowledgement on every path; a poll is answered with a final.',
     'C08.segmentation: stride == slice width == peer_mps; SAR decided from '
     'offsets; SDU length is written only with START and skipped only for START.',
     'C08.fcs: FCS appended and counted in the length under the same flag it is '
@@ -164,6 +165,50 @@ def window(ctx):
         R.check(any(dotted(c.func) == 'self._process_output' for c in calls_in(upd)), rule, f'{ERTM}._update_ack_seq | resumes output', 'output resumes after the window opens', 'acknowledgement does not resume output', p.loc(upd))
 
 
+def ack(ctx):
+    """Every accepted I-frame is acknowledged: after the expected sequence
+    number advances, every normal exit of on_pdu has either sent a frame
+    carrying the new req_seq (S-frame, or an I-frame from the sink) or passed
+    the `_req_seq_num != _last_acked_rx_seq` test that decides it."""
+    R, p = ctx.r, ctx.p
+    rule = 'C08.ack'
+    ci = p.cls(ERTM)
+    onp = ci.methods.get('on_pdu') if ci else None
+    if onp is None:
+        R.bad(rule, f'{ERTM}.on_pdu', 'anchor missing')
+        return
+
+    class D(paths.Domain):
+        def event(self, node, v):
+            if isinstance(node, ast.Assign) and any(dotted(t) == 'self._req_seq_num' for t in node.targets):
+                return ('advanced',)
+            if isinstance(node, ast.Call) and dotted(node.func) in ('self._send_s_frame', 'self._send_i_frame'):
+                return ('acked',) if v == 'advanced' else (v,)
+            return (v,)
+
+        def assume(self, atom, truth, v):
+            t = norm(atom)
+            if v == 'advanced' and t in ('self._req_seq_num != self._last_acked_rx_seq', 'self._last_acked_rx_seq != self._req_seq_num'):
+                # true branch must send; false branch means an I-frame already carried the ack
+                return ('must-send',) if truth else ('acked',)
+            return (v,)
+
+    class D2(D):
+        def event(self, node, v):
+            if v == 'must-send' and isinstance(node, ast.Call) and dotted(node.func) in ('self._send_s_frame', 'self._send_i_frame'):
+                return ('acked',)
+            return super().event(node, v)
+
+    res = paths.run(onp, D2(), 'init')
+    bad = [f'{k} via {" ".join(w)}' for k, st in res.items() if not k.startswith('raise') for v, w in st.items() if v in ('advanced', 'must-send')]
+    R.check(not bad, rule, f'{ERTM}.on_pdu | every accepted I-frame is acknowledged', 'after the expected sequence number advances every exit acknowledges (S-frame RR or piggy-backed on an I-frame)',
+            'an in-sequence I-frame can be accepted without any acknowledgement being sent: the peer\'s transmit window never reopens (stall when an SDU needs more segments than the window)', p.loc(onp), bad)
+    # the poll bit is answered with a final
+    polls = [n for n in walk_local(onp) if isinstance(n, ast.If) and norm(n.test) == 'control_field.poll']
+    ok = len(polls) == 1 and any(dotted(c.func) == 'self._send_s_frame' and norm(kwarg(c, 'final')) == '1' for c in calls_in(polls[0]))
+    R.check(ok, rule, f'{ERTM}.on_pdu | poll answered with final', 'RR/RNR with P=1 is answered with F=1', 'a poll is not answered with a final S-frame', p.loc(onp))
+
+
 def segmentation(ctx):
     R, p = ctx.r, ctx.p
     rule = 'C08.segmentation'
@@ -287,6 +332,7 @@ RULES = [
     ('C08.ctrl-bits', ctrl_bits),
     ('C08.seq', seq),
     ('C08.window', window),
+    ('C08.ack', ack),
     ('C08.segmentation', segmentation),
     ('C08.fcs', fcs),
     ('C08.config-fsm', config_fsm),
